@@ -272,7 +272,7 @@ func cmdRun(args []string) int {
 			defer wg.Done()
 			sem <- struct{}{}
 			defer func() { <-sem }()
-			opt := gosym.Options{Seed: seed, Trace: *trace, QueryMs: *queryMs, NoMerge: *noMerge}
+			opt := gosym.Options{Seed: seed, Trace: *trace, QueryMs: *queryMs, NoMerge: *noMerge, MergeDebug: os.Getenv("VERIF_MERGEDBG") != ""}
 			if opt.QueryMs == 0 {
 				if *tier == "thorough" {
 					opt.QueryMs = 600000
